@@ -417,7 +417,11 @@ func (a *ArithR) ufMath(e *Exec, st *State, name string, x *Term, where string) 
 		mono = -1
 	}
 	if mono != 0 {
-		for _, prev := range e.ufSites[fn] {
+		sites := e.ufSites[fn]
+		if len(sites) > 8 {
+			sites = sites[len(sites)-8:] // pairwise monotonicity only against the most recent sites
+		}
+		for _, prev := range sites {
 			pr := s.UF(fn, SReal, prev)
 			if mono > 0 {
 				ax(s.Eq(s.Lt(prev, x), s.Lt(pr, r)))
@@ -436,6 +440,24 @@ func (a *ArithR) ufMath(e *Exec, st *State, name string, x *Term, where string) 
 			d := s.Sub(x, s.Float(p))
 			near := s.And(s.Le(s.Float(-1e-9), d), s.Le(d, s.Float(1e-9)))
 			ax(s.Implies(near, s.And(s.Le(s.Float(v-1e-8), r), s.Le(r, s.Float(v+1e-8)))))
+		}
+	}
+	// sine is increasing on [-pi/2, pi/2], cosine decreasing on [0, pi]: lemma points "SinMono"/"CosMono"
+	if name == "Sin" {
+		hp := math.Pi / 2
+		inI := s.And(s.Le(s.Float(-hp), x), s.Le(x, s.Float(hp)))
+		for _, p := range e.LemmaPoints["SinMono"] {
+			v := math.Sin(p)
+			ax(s.Implies(s.And(inI, s.Le(s.Float(p), x)), s.Le(s.Float(v-1e-12), r)))
+			ax(s.Implies(s.And(inI, s.Le(x, s.Float(p))), s.Le(r, s.Float(v+1e-12))))
+		}
+	}
+	if name == "Cos" {
+		inI := s.And(s.Le(s.Float(0), x), s.Le(x, s.Float(math.Pi)))
+		for _, p := range e.LemmaPoints["CosMono"] {
+			v := math.Cos(p)
+			ax(s.Implies(s.And(inI, s.Le(s.Float(p), x)), s.Le(r, s.Float(v+1e-12))))
+			ax(s.Implies(s.And(inI, s.Le(x, s.Float(p))), s.Le(s.Float(v-1e-12), r)))
 		}
 	}
 	// lemma points: native value at p (widened) + monotonicity
